@@ -192,8 +192,29 @@ def run_name_case(params, st, keep_log=False):
     return res
 
 
+def lookup_attribute_names():
+    """Public attributes of the modules load_dataset could look names up in, turned into candidate dataset names
+    (with and without their load_/fetch_ prefix, '_' and '-' spellings) - minus the documented names."""
+    known = {n.replace("-", "_") for _, n in doc_names()}
+    out = []
+    for modname in ("traffic_weaver.datasets._datasets", "traffic_weaver.datasets", "traffic_weaver.datasets._base"):
+        try:
+            m = importlib.import_module(modname)
+        except Exception:
+            continue
+        for attr in sorted(dir(m)):
+            if attr.startswith("_"):
+                continue
+            for cand in (attr, attr.replace("_", "-"), attr.replace("_", "-", 1)):
+                if cand.replace("-", "_") not in known and cand not in out:
+                    out.append(cand)
+    return out
+
+
 def run_unknown(params, st, keep_log=False):
     names = [n for _, n in doc_names()]
+    if params.get("attr") is not None:
+        return _run_unknown_name(params["attr"], st.pick((False, True, None), "unpack"), st, keep_log)
     base = st.pick(names, "base")
     how = st.draw(0, 7, "mutation")
     if how == 0:
@@ -217,6 +238,10 @@ def run_unknown(params, st, keep_log=False):
     if bad.replace("-", "_") in known:
         bad = bad + "?"
     unpack = st.pick((False, True, None), "unpack")
+    return _run_unknown_name(bad, unpack, st, keep_log)
+
+
+def _run_unknown_name(bad, unpack, st, keep_log):
     scn = _scn([], [_raw(bad, unpack)])
     scn["case"] = {"unknown": bad}
 
@@ -343,6 +368,7 @@ def plan(tier, verif_seed):
     units.extend({"gen": "all", "home": "env"} for _ in range(2 if tier == "quick" else 24))
     units.append({"gen": "all", "home": "default"})
     units.extend({"gen": "unknown"} for _ in range(300 if tier == "quick" else 5000))
+    units.extend({"gen": "unknown", "attr": a} for a in lookup_attribute_names())
     return units
 
 
